@@ -585,6 +585,14 @@ def _pow(base: Numeric, exponent: Numeric) -> Numeric:
     return base**exponent
 
 
+def _whole(exponent: Numeric) -> Numeric:
+    """Arithmetic between prefixes of different bases works in floats; an exponent that
+    comes out whole (3.0) denotes the same prefix as the integer (3) and is kept as one"""
+    if isinstance(exponent, float) and exponent.is_integer():
+        return int(exponent)
+    return exponent
+
+
 class Prefix:
     """Prefixes scale a [`Unit`][measured.Unit] up or down by a constant factor.
 
@@ -656,7 +664,7 @@ class Prefix:
         if base != 0 and exponent == 0:
             return IdentityPrefix
 
-        key = (base, exponent)
+        key = (base, _whole(exponent))
         known = cls._known.get(key)
 
         if name and cls._by_name.get(name, known) is not known:
@@ -695,7 +703,7 @@ class Prefix:
             return
 
         self.base = base
-        self.exponent = exponent
+        self.exponent = _whole(exponent)
         self.name = name
         self.symbol = symbol
         self._initialized = True
